@@ -28,7 +28,7 @@ from ..common import Ctx
 
 SC = 8
 GEOM_TOL = 1e-12
-GEOM_CLASSES = ["arc-length", "piece-length", "continuity", "closure", "eval-piece", "eval-piece-break"]
+GEOM_CLASSES = ["arc-length", "piece-length", "continuity", "closure", "eval-piece", "eval-piece-break", "eval-array-order"]
 
 MC_PI = """---- MODULE MCParamInit ----
 EXTENDS %s
@@ -119,6 +119,15 @@ def geometry_records(curve, gamma, rng, verts=None):
             recs.append({"cls": "continuity", "curve": tag, "piece": i, "dev": jd.dev(float(np.max(np.abs(cands[0] - cands[1]))), 0.0, GEOM_TOL * max(1.0, L))})
         d = min(float(np.max(np.abs(E(x) - c))) for c in cands)
         recs.append({"cls": "eval-piece-break", "curve": tag, "piece": i, "dev": jd.dev(d, 0.0, GEOM_TOL * max(1.0, L))})
+    # whole-curve evaluation of an array in arbitrary (non-monotone) order == evaluation point by point
+    xs = np.array([starts[i] + (starts[i + 1] - starts[i]) * f for i in range(n) for f in (0.0, 0.25, 0.875)] + [L])
+    for rep in range(3):
+        perm = list(range(len(xs)))
+        rng.shuffle(perm)
+        arr = xs[perm]
+        whole = np.asarray(gamma.eval(arr), dtype=float).reshape(2, -1)
+        single = np.hstack([E(float(v)).reshape(2, 1) for v in arr])
+        recs.append({"cls": "eval-array-order", "curve": tag, "dev": jd.dev(float(np.max(np.abs(whole - single))), 0.0, GEOM_TOL * max(1.0, L))})
     if n == 1:
         recs.append({"cls": "continuity", "curve": tag, "piece": 0, "dev": 0, "note": "single piece"})
     if curve.closed:
@@ -169,7 +178,7 @@ def leaves_event(mesh, curve, gamma, kind, nt, xs):
     post = []
     ok = True
     for e in mesh.leaf_elements:
-        slab = int(math.floor(e.time_interval[0] + 1e-12)) + 1
+        slab = int(math.floor(e.time_interval[0] * (1 if nt <= 6 else nt) + 1e-9)) + 1
         x0, x1 = to_int(e.space_interval[0], curve.unit), to_int(e.space_interval[1], curve.unit)
         # level in space relative to the root is not needed by the clauses; report 0
         if x0 is None or x1 is None:
@@ -193,7 +202,7 @@ def construct_and_refine(ctx, curve, cfgs, rng, n_refine):
             for k, s in enumerate(gamma.pw_start):
                 if abs(grid[i] - s) < 1e-9:
                     grid[i] = s
-        tg = [float(j) for j in range(nt + 1)]
+        tg = [float(j) for j in range(nt + 1)] if nt <= 6 else [j / nt for j in range(nt + 1)]     # driver: [j / N_t]
         ev = {"k": "construct", "nt": nt, "xs": list(xs), "post": [], "exc": ""}
         try:
             import io
@@ -318,6 +327,14 @@ def run(prop, tier, seed):
             ctx.violation("model:ParamInit:%s:%s" % (c.name, st["violated"]), "ParamInit.tla violates %s for %s" % (st["violated"], c.name), st)
         model_stats.append(st)
         n_cfg += len(cfgs)
+        if c.name in ("UnitSquare", "LShape"):
+            # the hand-made graded tensor meshes of the driver (example.py --grading with uniform refinement):
+            # h_x = 2^-(k+1), N_t = round(2^(sigma (k+1))) time slabs
+            L8 = SC * sum(c.pieces)
+            for kk in (0, 1):
+                for sigma in (1, 1.5, 2):
+                    step = SC // 2 ** (kk + 1)
+                    cfgs = cfgs + [(int(round(2 ** (sigma * (kk + 1)))), tuple(range(0, L8 + 1, step)))]
         ev, meta = construct_and_refine(ctx, c, cfgs, rng, 3 if quick else 10)
         ms = judge_mesh(ctx, c, ev, meta)
         n_events += ms.get("events", 0)
